@@ -397,6 +397,10 @@ class NumberMagic:
         return "1.7alpha"
 
 
+# MediaWiki pads to at most 500 characters (CoreParserFunctions::pad)
+MAX_PAD_LENGTH = 500
+
+
 class StringMagic:
     @single_arg
     def LC(self, input_string):
@@ -417,7 +421,7 @@ class StringMagic:
     def PADLEFT(self, args):
         original_string = args[0]
         try:
-            width = int(args[1])
+            width = min(int(args[1]), MAX_PAD_LENGTH)
         except ValueError:
             return original_string
 
@@ -435,7 +439,7 @@ class StringMagic:
     def PADRIGHT(self, args):
         original_string = args[0]
         try:
-            width = int(args[1])
+            width = min(int(args[1]), MAX_PAD_LENGTH)
         except ValueError:
             return original_string
 
